@@ -1,1 +1,455 @@
-fn main() {}
+//! Engine A: builder / layout / definition monitors over seeded, directed and small-scope
+//! histories, applied to the real `truc` builders and strategies.
+
+mod determinism;
+mod emit;
+mod hist;
+mod monitors;
+mod replaydef;
+mod resolver;
+mod sut;
+mod typenames;
+
+use std::collections::{BTreeMap, HashSet};
+
+use serde::Serialize;
+use vtypes::Rng;
+
+use hist::{History, ALPHA_REALISTIC};
+use monitors::{LayoutRun, Stats, Violation};
+
+pub struct Args {
+    map: BTreeMap<String, String>,
+    pub mode: String,
+}
+
+impl Args {
+    fn parse() -> Args {
+        let mut it = std::env::args().skip(1);
+        let mode = it.next().unwrap_or_else(|| {
+            eprintln!("usage: layoutmon <mode> [--key value]...");
+            std::process::exit(2);
+        });
+        let mut map = BTreeMap::new();
+        while let Some(k) = it.next() {
+            let k = k.trim_start_matches("--").to_owned();
+            let v = it.next().unwrap_or_default();
+            map.insert(k, v);
+        }
+        Args { map, mode }
+    }
+    pub fn u64(&self, k: &str, default: u64) -> u64 {
+        self.map.get(k).map(|v| v.parse().expect(k)).unwrap_or(default)
+    }
+    pub fn str(&self, k: &str, default: &str) -> String {
+        self.map.get(k).cloned().unwrap_or_else(|| default.to_owned())
+    }
+    pub fn has(&self, k: &str) -> bool {
+        self.map.contains_key(k)
+    }
+}
+
+#[derive(Serialize, Default)]
+pub struct Report {
+    pub mode: String,
+    pub seed: u64,
+    pub shard: u64,
+    pub evaluations: u64,
+    /// digests of the distinct non-trivial cases, per property
+    pub distinct_nontrivial: BTreeMap<String, u64>,
+    pub exhaustive_sweep: Option<SweepInfo>,
+    pub stats: Stats,
+    pub extra: BTreeMap<String, serde_json::Value>,
+    pub samples: Vec<String>,
+    pub violations: Vec<Violation>,
+    pub violations_total: u64,
+}
+
+#[derive(Serialize, Default, Clone)]
+pub struct SweepInfo {
+    pub alphabet: Vec<String>,
+    pub max_variants: u64,
+    pub max_adds: u64,
+    pub enumerated: u64,
+}
+
+const MAX_VIOLATIONS_KEPT: usize = 40;
+
+pub fn write_report(args: &Args, report: &Report) {
+    let text = serde_json::to_string(report).unwrap();
+    let out = args.str("out", "");
+    if out.is_empty() {
+        println!("{}", text);
+    } else {
+        std::fs::write(&out, text).expect("write report");
+    }
+}
+
+pub struct Distinct {
+    sets: BTreeMap<&'static str, HashSet<u64>>,
+}
+
+impl Distinct {
+    pub fn new() -> Self {
+        Distinct {
+            sets: BTreeMap::new(),
+        }
+    }
+    pub fn add(&mut self, prop: &'static str, digest: u64) {
+        self.sets.entry(prop).or_default().insert(digest);
+    }
+    /// Writes the digests of every property to `<out>.digests.<prop>` (raw little-endian u64)
+    /// so that the runner can count distinct cases across shards.
+    pub fn dump(&self, args: &Args) {
+        let out = args.str("out", "");
+        if out.is_empty() {
+            return;
+        }
+        for (prop, set) in &self.sets {
+            let mut bytes = Vec::with_capacity(set.len() * 8);
+            for d in set {
+                bytes.extend_from_slice(&d.to_le_bytes());
+            }
+            std::fs::write(format!("{}.digests.{}", out, prop), bytes).expect("write digests");
+        }
+    }
+
+    pub fn counts(&self) -> BTreeMap<String, u64> {
+        self.sets
+            .iter()
+            .map(|(k, v)| (k.to_string(), v.len() as u64))
+            .collect()
+    }
+}
+
+pub fn keep_violations(violations: &mut Vec<Violation>, total: &mut u64, new: Vec<Violation>) {
+    *total += new.len() as u64;
+    for v in new {
+        if violations.len() < MAX_VIOLATIONS_KEPT {
+            violations.push(v);
+        }
+    }
+}
+
+/// A hostile history reduced to the requests the model accepts, closed at the end: a valid
+/// history that re-uses names across variants (including replacing a name within one
+/// transition) and contains cancelled data.
+pub fn hostile_valid(rng: &mut Rng) -> History {
+    use hist::{Model, Outcome, Req};
+    let h = hist::gen_hostile_history(rng);
+    let mut model = Model::default();
+    let mut issued: Vec<usize> = Vec::new();
+    let mut kmap: BTreeMap<usize, usize> = BTreeMap::new(); // old k -> new k
+    let mut old_k = 0usize;
+    let mut reqs = Vec::new();
+    let mut last_strat = hist::Strat::Simple;
+    for r in &h.reqs {
+        match r {
+            Req::Add { name, .. } => {
+                let o = model.add(&format!("n{}", name));
+                if let Outcome::Added(id) = o {
+                    kmap.insert(old_k, issued.len());
+                    issued.push(id);
+                    old_k += 1;
+                    reqs.push(r.clone());
+                }
+            }
+            Req::Remove { k } => {
+                if let Some(nk) = kmap.get(k) {
+                    if model.remove(issued[*nk]) == Outcome::Removed {
+                        reqs.push(Req::Remove { k: *nk });
+                    }
+                }
+            }
+            Req::RemoveRaw { .. } => {}
+            Req::Close { strat } => {
+                last_strat = *strat;
+                if let Outcome::Closed { new: true, .. } = model.close() {
+                    reqs.push(r.clone());
+                }
+            }
+        }
+    }
+    if model.pending() || model.variants.is_empty() {
+        model.close();
+        reqs.push(Req::Close { strat: last_strat });
+    }
+    History {
+        reqs,
+        unique_names: false,
+        origin: "random-hostile-valid".to_owned(),
+    }
+}
+
+fn mode_layout(args: &Args) {
+    let seed = args.u64("seed", 1);
+    let count = args.u64("count", 10_000);
+    let shard = args.u64("shard", 0);
+    let nshards = args.u64("nshards", 1);
+    let generate_every = args.u64("generate-every", 0);
+    let sweep = args.u64("sweep", 0); // 0 none, else max_variants
+    let sweep_adds = args.u64("sweep-adds", 2);
+    let mut stats = Stats::default();
+    let mut violations = Vec::new();
+    let mut total = 0u64;
+    let mut distinct = Distinct::new();
+    let mut samples: Vec<String> = Vec::new();
+    let mut evaluations = 0u64;
+
+    let mut one = |h: &History,
+                   stats: &mut Stats,
+                   distinct: &mut Distinct,
+                   samples: &mut Vec<String>,
+                   gen_every: u64| {
+        let mut v = Vec::new();
+        let flags = {
+            let mut run = LayoutRun {
+                stats,
+                violations: &mut v,
+                generate_every: gen_every,
+            };
+            monitors::run_layout(h, &mut run)
+        };
+        let d = h.digest();
+        if flags.variants >= 2 && flags.gap_filled {
+            distinct.add("C01", d);
+            if samples.len() < 6 && (d % 97 == 0 || samples.len() < 2) {
+                samples.push(h.text());
+            }
+        }
+        if flags.variants >= 2 && flags.multi_datum_close {
+            distinct.add("C02", d);
+        }
+        if flags.variants >= 2 && flags.carried_over {
+            distinct.add("C03", d);
+        }
+        if flags.built && (flags.has_orphan || flags.has_zst || flags.variants >= 3 || flags.generated) {
+            distinct.add("C13", d);
+        }
+        v
+    };
+
+    if shard == 0 {
+        for h in hist::directed_histories() {
+            evaluations += 1;
+            let v = one(&h, &mut stats, &mut distinct, &mut samples, if generate_every != 0 { 1 } else { 0 });
+            keep_violations(&mut violations, &mut total, v);
+        }
+    }
+    let mut rng = Rng::stream(seed, 0x1000 + shard);
+    for i in 0..count {
+        let h = if i % 5 == 4 {
+            hostile_valid(&mut rng)
+        } else {
+            hist::gen_layout_history(&mut rng)
+        };
+        evaluations += 1;
+        let v = one(&h, &mut stats, &mut distinct, &mut samples, generate_every);
+        keep_violations(&mut violations, &mut total, v);
+    }
+    let mut sweep_info = None;
+    if sweep > 0 {
+        // zero-size, odd sizes, several alignments
+        let alphabet7 = [
+            hist::sh(0, 8),
+            hist::sh(1, 1),
+            hist::sh(3, 1),
+            hist::sh(2, 2),
+            hist::sh(6, 2),
+            hist::sh(4, 4),
+            hist::sh(8, 8),
+        ];
+        let alphabet5 = [
+            hist::sh(0, 8),
+            hist::sh(1, 1),
+            hist::sh(3, 1),
+            hist::sh(6, 2),
+            hist::sh(8, 8),
+        ];
+        let alphabet: &[hist::Shape] = if args.u64("sweep-alpha", 7) == 5 {
+            &alphabet5
+        } else {
+            &alphabet7
+        };
+        let mut f = |h: &History| {
+            let v = one(h, &mut stats, &mut distinct, &mut samples, 0);
+            keep_violations(&mut violations, &mut total, v);
+        };
+        let n = hist::sweep(
+            alphabet,
+            sweep as usize,
+            sweep_adds as usize,
+            shard as usize,
+            nshards as usize,
+            &mut f,
+        );
+        evaluations += n;
+        sweep_info = Some(SweepInfo {
+            alphabet: alphabet.iter().map(|s| format!("{}/{}", s.size, s.align)).collect(),
+            max_variants: sweep,
+            max_adds: sweep_adds,
+            enumerated: n,
+        });
+    }
+    let _ = ALPHA_REALISTIC;
+    distinct.dump(args);
+    let report = Report {
+        mode: "layout".to_owned(),
+        seed,
+        shard,
+        evaluations,
+        distinct_nontrivial: distinct.counts(),
+        exhaustive_sweep: sweep_info,
+        stats,
+        extra: BTreeMap::new(),
+        samples,
+        violations,
+        violations_total: total,
+    };
+    write_report(args, &report);
+}
+
+fn mode_builder(args: &Args) {
+    let seed = args.u64("seed", 1);
+    let count = args.u64("count", 10_000);
+    let shard = args.u64("shard", 0);
+    let mut stats = Stats::default();
+    let mut violations = Vec::new();
+    let mut total = 0u64;
+    let mut distinct = Distinct::new();
+    let mut samples = Vec::new();
+    let mut evaluations = 0;
+    let mut run_one = |h: &History, stats: &mut Stats, distinct: &mut Distinct, samples: &mut Vec<String>| {
+        let mut v = Vec::new();
+        let flags = monitors::run_builder_both(h, stats, &mut v);
+        if flags.rejected > 0 && flags.variants >= 1 {
+            distinct.add("C12", h.digest());
+            if samples.len() < 6 && (h.digest() % 89 == 0 || samples.len() < 2) {
+                samples.push(h.text());
+            }
+        }
+        v
+    };
+    if shard == 0 {
+        for h in hist::directed_hostile_histories()
+            .into_iter()
+            .chain(hist::directed_histories())
+        {
+            evaluations += 1;
+            let v = run_one(&h, &mut stats, &mut distinct, &mut samples);
+            keep_violations(&mut violations, &mut total, v);
+        }
+    }
+    let mut rng = Rng::stream(seed, 0x2000 + shard);
+    for i in 0..count {
+        let h = if i % 4 == 3 {
+            hist::gen_layout_history(&mut rng)
+        } else {
+            hist::gen_hostile_history(&mut rng)
+        };
+        evaluations += 1;
+        let v = run_one(&h, &mut stats, &mut distinct, &mut samples);
+        keep_violations(&mut violations, &mut total, v);
+    }
+    distinct.dump(args);
+    let report = Report {
+        mode: "builder".to_owned(),
+        seed,
+        shard,
+        evaluations,
+        distinct_nontrivial: distinct.counts(),
+        exhaustive_sweep: None,
+        stats,
+        extra: BTreeMap::new(),
+        samples,
+        violations,
+        violations_total: total,
+    };
+    write_report(args, &report);
+}
+
+fn mode_replay(args: &Args) {
+    // replays the history of a witness file through every monitor
+    let path = args.str("file", "");
+    let text = std::fs::read_to_string(&path).expect("read replay file");
+    let value: serde_json::Value = serde_json::from_str(&text).expect("json");
+    let h: History = serde_json::from_value(value["history"].clone()).expect("history");
+    let mut stats = Stats::default();
+    let mut violations = Vec::new();
+    let valid = {
+        // valid iff the model accepts everything and ends closed
+        use hist::{Model, Outcome, Req};
+        let mut m = Model::default();
+        let mut issued = Vec::new();
+        let mut ok = true;
+        for r in &h.reqs {
+            let o = match r {
+                Req::Add { name, .. } => {
+                    let o = m.add(&h.name_of(*name));
+                    if let Outcome::Added(id) = o {
+                        issued.push(id);
+                    }
+                    o
+                }
+                Req::Remove { k } => issued.get(*k).map_or(Outcome::Rejected, |id| m.remove(*id)),
+                Req::RemoveRaw { id } => m.remove(*id),
+                Req::Close { .. } => m.close(),
+            };
+            if o == Outcome::Rejected {
+                ok = false;
+            }
+        }
+        ok && !m.pending()
+    };
+    if valid {
+        let mut run = LayoutRun {
+            stats: &mut stats,
+            violations: &mut violations,
+            generate_every: 1,
+        };
+        monitors::run_layout(&h, &mut run);
+        determinism::check_one(&h, &mut violations);
+        replaydef::check_one(&h, &mut stats, &mut violations);
+    }
+    monitors::run_builder_both(&h, &mut stats, &mut violations);
+    println!("history: {}", h.text());
+    for v in &violations {
+        println!("VIOLATION property={} kind={} {}", v.property, v.kind, v.detail);
+    }
+    println!("replayed: {} violation(s)", violations.len());
+    std::process::exit(if violations.is_empty() { 0 } else { 1 });
+}
+
+fn main() {
+    // panics inside the code under test are caught and reported by the monitors
+    std::panic::set_hook(Box::new(|_| {}));
+    let args = Args::parse();
+    match args.mode.as_str() {
+        "layout" => mode_layout(&args),
+        "builder" => mode_builder(&args),
+        "determinism" => determinism::mode(&args),
+        "replaydef" => replaydef::mode(&args),
+        "resolver" => resolver::mode(&args),
+        "typenames" => typenames::mode(&args),
+        "emit" => emit::mode(&args),
+        "replay" => mode_replay(&args),
+        "count-distinct" => {
+            // union of raw u64 digest files
+            let mut all: Vec<u64> = Vec::new();
+            for f in args.str("files", "").split(',').filter(|f| !f.is_empty()) {
+                if let Ok(bytes) = std::fs::read(f) {
+                    for c in bytes.chunks_exact(8) {
+                        all.push(u64::from_le_bytes(c.try_into().unwrap()));
+                    }
+                }
+            }
+            all.sort_unstable();
+            all.dedup();
+            println!("{}", all.len());
+        }
+        other => {
+            eprintln!("unknown mode {}", other);
+            std::process::exit(2);
+        }
+    }
+}
